@@ -174,8 +174,11 @@ Record ocli := {
      resolved path, container, tape name; None = the run must fail and write nothing *)
   cc_expected : option (list (string * okind * option (list Z)));
   cc_expected_stdout : option okind;
+  cc_lst : bool;                                       (* --lst given *)
+  cc_expected_lst : option string;                     (* where the listing is expected (resolved), if any *)
   cc_obs_ok : bool;                                    (* exit status 0 *)
-  cc_obs_files : list (string * rep);                  (* every file found afterwards (resolved path) *)
+  cc_obs_files : list (string * rep);                  (* every file found afterwards (resolved path), the listing apart *)
+  cc_obs_lst : option string;                          (* the *.lst file found afterwards, if any *)
   cc_obs_stdout : rep }.
 
 Fixpoint assoc_s {A} (k : string) (m : list (string * A)) : option A :=
@@ -189,8 +192,10 @@ Definition prop_ocli (c : ocli) : bool :=
   let obs_out := expand_rep (cc_obs_stdout c) in
   match cc_expected c with
   | None => negb (cc_obs_ok c) && match obs with [] => true | _ => false end
+            && match cc_obs_lst c with None => true | Some _ => false end
   | Some exp =>
       cc_obs_ok c
+      && opt_eqb String.eqb (cc_expected_lst c) (cc_obs_lst c)
       && Nat.eqb (length exp) (length obs)
       && forallb (fun e => match e with (p, k, nm) =>
            match assoc_s p obs with
